@@ -2,12 +2,12 @@
 """Regenerates MANIFEST.json from props.py (single source of truth)."""
 import json, os, subprocess, sys
 sys.path.insert(0, os.path.dirname(os.path.abspath(__file__)))
-from props import PROPS, NOT_APPLICABLE, HOOK_COMMITS
+from props import PROPS, NOT_APPLICABLE, HOOK_COMMITS, CLAIMED
 
 ids = [json.loads(l)["id"] for l in open("/verif/properties.jsonl")]
 checks = []
 for pid in ids:
-    if pid not in PROPS or pid in NOT_APPLICABLE:
+    if pid not in PROPS or pid in NOT_APPLICABLE or pid not in CLAIMED:
         continue
     pc = PROPS[pid]
     checks.append(dict(
@@ -21,7 +21,7 @@ for pid in ids:
         level_note=pc["level_note"],
         technique=pc["technique"],
     ))
-na = [dict(property_id=p, reason=NOT_APPLICABLE.get(p, "monitor not built yet; see DESIGN.md section 6 for the planned design")) for p in ids if p not in PROPS or p in NOT_APPLICABLE]
+na = [dict(property_id=p, reason=NOT_APPLICABLE.get(p, "monitor not built yet; see DESIGN.md section 6 for the planned design")) for p in ids if p not in PROPS or p in NOT_APPLICABLE or p not in CLAIMED]
 m = dict(
     version=1,
     setup_cmd="./setup.sh",
